@@ -23,7 +23,13 @@ def _strip_doc(body):
     return body
 
 
-def skeleton(fn: ast.FunctionDef, renames: dict | None = None) -> list[str]:
+def _literal_only(e: ast.AST) -> bool:
+    return all(isinstance(x, (ast.Constant, ast.JoinedStr, ast.BinOp, ast.Add, ast.Load)) and not isinstance(x, ast.FormattedValue)
+               for x in ast.walk(e)) and not any(isinstance(x, ast.FormattedValue) for x in ast.walk(e))
+
+
+def skeleton(fn: ast.FunctionDef, renames: dict | None = None, skip_literal: bool = False) -> list[str]:
+    """skip_literal: statements that only add constant text (`x += "…"`, `printer("…")`) are left out."""
     renames = renames or {}
     out: list[str] = []
 
@@ -55,6 +61,11 @@ def skeleton(fn: ast.FunctionDef, renames: dict | None = None) -> list[str]:
                 out.append(f"{pre}return")
             elif isinstance(st, ast.Raise):
                 out.append(f"{pre}raise {_norm(ast.unparse(st.exc.func), renames) if isinstance(st.exc, ast.Call) else ''}")
+            elif skip_literal and isinstance(st, ast.AugAssign) and _literal_only(st.value):
+                continue
+            elif skip_literal and isinstance(st, ast.Expr) and isinstance(st.value, ast.Call) and st.value.args \
+                    and all(_literal_only(a) for a in st.value.args) and all(_literal_only(k.value) for k in st.value.keywords):
+                continue
             elif isinstance(st, (ast.Assign, ast.AnnAssign, ast.AugAssign)):
                 tg = st.targets[0] if isinstance(st, ast.Assign) else st.target
                 op = type(st.op).__name__ if isinstance(st, ast.AugAssign) else "="
